@@ -10,53 +10,34 @@ Local Open Scope Z_scope.
     [stem iris] is the model of what detect_minimal_iri prints for a class
     whose instance ids are [iris] in dictionary order
     ([_update_shape_min_iri] folded over the instances, then
-    [_determine_suitable_iri_pattern]; separators, lengths and the sentinel
-    come from [Gen/Consts.v]).
+    [_determine_suitable_iri_pattern]; separators, the minimum length, the
+    [_BARE_SCHEME] pattern and the sentinel come from [Gen/Consts.v]).
 
-    Property wording, on [C17_dom] (a non-empty list of ids none of which
-    starts with ['%'], on whose separator-terminated common prefixes "bare
-    scheme" and the code's test "starts with http and has fewer than nine
-    characters" coincide): the printed stem is admissible -- a prefix of every
-    instance id, ends with ':', '/' or '#', at least three characters, not a
-    bare scheme -- and no admissible stem is longer; nothing printed means no
-    admissible stem exists.  [_partial]: the full statement (all id lists) is
-    false on the current code, see the [_refuted] lemmas below. *)
-Theorem C17_stem_longest_partial : forall iris s,
+    For every non-empty list of instance ids none of which starts with ['%']
+    ([well_formed_ids] = [C17_dom]: every list of IRIs and blank-node labels):
+    the printed stem is admissible -- a prefix of every instance id, ends with
+    ':', '/' or '#', at least three characters, not a bare scheme -- and no
+    admissible stem is longer; nothing printed means no admissible stem
+    exists.  The proofs need [c_min_iri_rule_bare = true], i.e. the source
+    with the [_BARE_SCHEME.fullmatch] test; on the former length test
+    ([startswith("http") and len < 9]) they do not check. *)
+Theorem C17_stem_longest : forall iris s,
   C17_dom iris -> stem iris = Some s -> is_longest s iris.
 Proof. exact stem_some. Qed.
-Print Assumptions C17_stem_longest_partial.
+Print Assumptions C17_stem_longest.
 
-Theorem C17_stem_none_partial : forall iris,
+Theorem C17_stem_none : forall iris,
   C17_dom iris -> stem iris = None -> forall s, ~ admissible s iris.
 Proof. exact stem_none. Qed.
-Print Assumptions C17_stem_none_partial.
-
-(** Every list of instance IRIs that start with [http://x] or [https://x]
-    ([x] no separator) is in the domain: the theorems above are not about a
-    corner. *)
-Theorem C17_http_family_in_dom : forall iris,
-  iris <> [] -> (forall i, In i iris -> http_family i) -> C17_dom iris.
-Proof. exact http_family_in_dom. Qed.
-Print Assumptions C17_http_family_in_dom.
+Print Assumptions C17_stem_none.
 
 (** the computable domain test run by the check implies the domain *)
 Theorem C17_domb_sound : forall iris, C17_domb iris = true -> C17_dom iris.
 Proof. exact MinIriProofs.C17_domb_sound. Qed.
 Print Assumptions C17_domb_sound.
 
-(** For ALL non-empty id lists without a ['%'] id, exactly what the code does:
-    the printed stem is the longest common prefix that ends with a separator,
-    has at least three characters and is not "http..." shorter than nine;
-    nothing is printed iff there is none. *)
-Theorem C17_stem_as_implemented : forall iris, well_formed_ids iris ->
-  (forall s, stem iris = Some s -> is_longest_impl s iris) /\
-  (stem iris = None -> forall s, ~ admissible_impl s iris).
-Proof. intros iris W. split; [intros s; now apply stem_some_impl | now apply stem_none_impl]. Qed.
-Print Assumptions C17_stem_as_implemented.
-
-(** For all such lists, independently of the scheme clause: a printed stem is a
-    prefix of every instance id, ends with a separator, has at least three
-    characters, and no separator-terminated common prefix is longer. *)
+(** Moreover the scheme clause never makes the code fall back to a shorter
+    stem: what is printed is the longest separator-terminated common prefix. *)
 Theorem C17_stem_prefix_sep_longest : forall iris s,
   well_formed_ids iris -> stem iris = Some s ->
   common_prefix s iris /\ ends_with_sep s /\ 3 <= pylen s /\
@@ -129,48 +110,19 @@ Example C17_examples_inhabited :
     constraint_example d (Str "http://ex.org/C") (Str "http://ex.org/p") true = Some (Str "http://ex.org/a/i1").
 Proof. eexists. eexists. repeat split; vm_compute; reflexivity. Qed.
 
-(** ** known findings: the full statement (all id lists) is false *)
+(** ** regressions of repaired defects (C17-X-a83169a and the bare-scheme /
+    short-http repair): bare schemes are never printed, a short authority-less
+    http: stem is *)
+Example C17_fixed_regressions :
+  stem [Str "https://a.org/x"; Str "https://b.org/y"] = None /\
+  stem [Str "ftp://x.org/1"; Str "ftp://y.org/1"] = None /\
+  stem [Str "urn:isbn:1"; Str "urn:uuid:2"] = None /\
+  stem [Str "http:a/x"; Str "http:a/y"] = Some (Str "http:a/").
+Proof. repeat split; vm_compute; reflexivity. Qed.
 
-(** C17-F1: a bare scheme other than http/https is printed as a stem
-    (two ftp hosts, two urn namespaces). *)
-Lemma C17_bare_scheme_refuted :
-  exists iris s, well_formed_ids iris /\ stem iris = Some s /\ bare_scheme s /\ ~ admissible s iris.
-Proof.
-  exists [Str "ftp://x.org/1"; Str "ftp://y.org/1"], (Str "ftp://").
-  assert (B : bare_scheme (Str "ftp://")) by (apply bare_schemeb_spec; vm_compute; reflexivity).
-  split; [|split; [vm_compute; reflexivity | split; [exact B | intros (_ & _ & _ & N); exact (N B)]]].
-  split; [discriminate|]. intros i Hi P. apply prefixb_prefix in P.
-  destruct Hi as [<- | [<- | []]]; vm_compute in P; discriminate.
-Qed.
-
-Lemma C17_bare_scheme_refuted_urn :
-  exists iris s, well_formed_ids iris /\ stem iris = Some s /\ bare_scheme s.
-Proof.
-  exists [Str "urn:isbn:1"; Str "urn:uuid:2"], (Str "urn:").
-  split; [|split; [vm_compute; reflexivity | apply bare_schemeb_spec; vm_compute; reflexivity]].
-  split; [discriminate|]. intros i Hi P. apply prefixb_prefix in P.
-  destruct Hi as [<- | [<- | []]]; vm_compute in P; discriminate.
-Qed.
-
-(** C17-F2: an admissible stem exists but none is printed (authority-less
-    http: IRIs: the "http... shorter than nine" test also hits non-schemes). *)
-Lemma C17_short_http_refuted :
-  exists iris s, well_formed_ids iris /\ stem iris = None /\ admissible s iris.
-Proof.
-  exists [Str "http:a/x"; Str "http:a/y"], (Str "http:a/").
-  split; [|split; [vm_compute; reflexivity|]].
-  - split; [discriminate|]. intros i Hi P. apply prefixb_prefix in P.
-    destruct Hi as [<- | [<- | []]]; vm_compute in P; discriminate.
-  - split; [|split; [|split]].
-    + intros i [<- | [<- | []]]; [exists (Str "x") | exists (Str "y")]; reflexivity.
-    + exists (Str "http:a"), "/"%char. split; [reflexivity | right; now left].
-    + vm_compute. discriminate.
-    + intros B. apply bare_schemeb_spec in B. vm_compute in B. discriminate.
-Qed.
-
-(** Sentinel aliasing (why [well_formed_ids] excludes ids that start with
-    ['%']; such a string is no IRI and no blank-node label): a running prefix
-    equal to the sentinel is overwritten by the next instance. *)
+(** ** why the domain excludes ids that start with ['%'] (such a string is no
+    IRI and no blank-node label): sentinel aliasing -- a running prefix equal
+    to the sentinel is overwritten by the next instance. *)
 Lemma C17_sentinel_refuted :
   exists iris s i, iris <> [] /\ stem iris = Some s /\ In i iris /\ ~ prefix s i.
 Proof.
